@@ -35,6 +35,11 @@ TOPOLOGIES = {
 ANCHOR_PAL = [(250, 600), (260.5, 640), (300, 700.5), (240, 590)]
 
 
+W2_LIB = {"com.github.googlei18n.ufo2ft.featureWriters": [
+    {"module": "ufo2ft.featureWriters.kernFeatureWriter2", "class": "KernFeatureWriter"},
+    {"class": "MarkFeatureWriter"}, {"class": "GdefFeatureWriter"}, {"class": "CursFeatureWriter"}]}
+
+
 def master_spec(i, kcc, kgg, anchor, khalf=None):
     d = 20 * i
     glyphs = {
@@ -88,6 +93,8 @@ def build_ds(c):
             spec = master_spec(mi, KV[kcc], KV[kgg], ANCHOR_PAL[c["anchors"][fi] % len(ANCHOR_PAL)],
                                khalf=[None, -35][kh])
             fi += 1
+            if c.get("w2"):
+                spec["lib"] = dict(W2_LIB)  # the alternative kern writer, selected through the UFO lib
             specs.append(spec)
             sources.append({"spec": spec, "location": loc, "name": f"m{mi}", "share": f"m{mi}"})
         else:
@@ -183,6 +190,11 @@ class C10(Property):
                             out.append([{"topo": topo, "kern": [list(k) for k in kern], "anchors": anchors,
                                          "flavour": fl, "vf": vf, "axis_map": amap}])
                             if nfull == 2 and amap is False:
+                                out.append([{"topo": topo, "kern": [list(k) for k in kern], "anchors": anchors,
+                                             "flavour": fl, "vf": vf, "axis_map": amap, "w2": True}])
+                                out.append([{"topo": topo, "kern": [list(k) for k in kern], "anchors": anchors,
+                                             "flavour": fl, "vf": vf, "axis_map": amap, "w2": True, "half": [1, 0]}])
+                            if nfull == 2 and amap is False:
                                 # the half-class exception present in the first, the second or both masters
                                 for half in ([1, 0], [0, 1], [1, 1]):
                                     out.append([{"topo": topo, "kern": [list(k) for k in kern], "anchors": anchors,
@@ -203,7 +215,8 @@ class C10(Property):
         viols = []
         ctr = {"master_instances": 0, "pair_checks": 0, "pairs_absent_in_this_master_present_elsewhere": 0,
                "anchor_checks": 0, "outline_checks": 0}
-        feat = {"topo": c["topo"], "flavour": c["flavour"], "vf": c["vf"], "axis_map": c["axis_map"]}
+        feat = {"topo": c["topo"], "flavour": c["flavour"], "vf": c["vf"], "axis_map": c["axis_map"],
+                "writer2": bool(c.get("w2"))}
         if c["flavour"] == "ttf":
             vfont = ufo2ft.compileVariableTTF(ds, useProductionNames=False, variableFeatures=c["vf"])
             ds2, _, _, _ = build_ds(c)
